@@ -1,1 +1,2 @@
-def main : IO Unit := IO.println "no driver yet"
+import PrimitivModel.Driver.KarithDrv
+def main : IO Unit := Primitiv.Drv.KarithDrv.main
